@@ -19,6 +19,7 @@ import PoetryVerif.Proofs.EqHashAllows
 import PoetryVerif.Proofs.EqHashMarker
 import PoetryVerif.Proofs.EqHashDep
 import PoetryVerif.Proofs.EqHashParse
+import PoetryVerif.Proofs.EqHashAlgOps
 import PoetryVerif.Proofs.VersionParse
 import PoetryVerif.Proofs.VRangeSpecSet
 import PoetryVerif.Proofs.VRangeTextU
@@ -340,11 +341,76 @@ theorem marker_beq_interchangeable (a b : M) (ha : mCoherent a) (hb : mCoherent 
 /-- the invariant is decidable, and the executable form (reported by the driver for every pool object) implies it -/
 theorem marker_coherent_of_check (m : M) (h : mCoherentB m = true) : mCoherent m := mCoherent_of_B m h
 
-/-- not proved for all inputs (needs: the operator/value split of `_CONSTRAINT_RE_PATTERN_1` is idempotent on
-`operator + value`, and white space between them does not change the parsed constraint): every marker the
-front end builds is coherent.  Checked per object by the correspondence (`flags` of op `eqh`). -/
-def marker_coherent_full_statement : Prop :=
-  ∀ syn m, compactRaw syn = .ok m → mCoherent m
+/-! ### coherence is an invariant of the parser and of the whole marker algebra
+
+Every `SingleMarker` is built by its constructor; the invariant therefore reduces to two leaf-level facts about
+constructor calls (`marker_coherent_leaf_obligations`):
+  (1) `ParsedItemsCoherent` — an item `name op "literal"` of a PARSED text builds a coherent leaf (C06 proves this on its
+      domain, `C06.marker_coherent_partial`; open for literals with white space next to the operator, where it needs the
+      constraint parsers' insensitivity to that white space; over arbitrary syntax trees it is false,
+      `C06.counterexample_coherence_arbitrary_op`), and
+  (2) `MergeCoherent` — `_merge_single_markers` returns coherent leaves for coherent operands (its three
+      `SingleMarker(name, constraint)` calls).
+Given these, EVERYTHING is proved: `parse_marker`, and — by induction over the whole mutual simplifier block, for every
+fuel and every `detect_recursion` stack — intersect, union, intersection(), union(), cnf, dnf, `MultiMarker.of`,
+`MarkerUnion.of`, intersect_simplify, union_simplify, and invert, only, exclude, without_extras,
+reduce_by_python_constraint.  (Both facts are checked per object at run time: flag of driver op `eqh`, and the same
+test on the real objects.) -/
+
+def marker_coherent_leaf_obligations : Prop := ParsedItemsCoherent ∧ MergeCoherent
+
+/-- the invariant in the vocabulary of the simplifier proofs (`M.Good`, Proofs/MarkerSem.lean) -/
+theorem marker_coherent_iff_good (m : M) : mCoherent m ↔ M.Good leafCoherent m := mCoherent_iff_good m
+
+/-- **the simplifier preserves ANY leaf predicate closed under `_merge_single_markers`** — every function of the mutual
+block, every fuel, every recursion stack (no semantic hypothesis) -/
+theorem simplifier_preserves_leaf_invariant (G : Leaf → Prop) (MC : MergeClosed G) (fuel : Nat) (stk : Stack) :
+    (∀ a b r, M.Good G a → M.Good G b → mIntersect fuel stk a b = .ok r → M.Good G r) ∧
+    (∀ a b r, M.Good G a → M.Good G b → mUnion fuel stk a b = .ok r → M.Good G r) ∧
+    (∀ ms r, GL G ms → intersectionF fuel stk ms = .ok r → M.Good G r) ∧
+    (∀ ms r, GL G ms → unionF fuel stk ms = .ok r → M.Good G r) ∧
+    (∀ m r, M.Good G m → cnf fuel stk m = .ok r → M.Good G r) ∧
+    (∀ m r, M.Good G m → dnf fuel stk m = .ok r → M.Good G r) ∧
+    (∀ ms r, GL G ms → multiOf fuel stk ms = .ok r → M.Good G r) ∧
+    (∀ ms r, GL G ms → unionOf fuel stk ms = .ok r → M.Good G r) :=
+  have g := gAt MC fuel
+  ⟨g.inter stk, g.uni stk, g.interF stk, g.uniF stk, g.cnf stk, g.dnf stk, g.mOf stk, g.uOf stk⟩
+
+/-- **coherence is preserved by ∩, ∪, cnf, dnf** (as the public methods run them: quiescent stacks; and for any stack) -/
+theorem marker_coherent_algebra (MC : MergeCoherent) (a b r : M) (ha : mCoherent a) (hb : mCoherent b) :
+    (a.intersectWith b = .ok r → mCoherent r) ∧ (a.unionWith b = .ok r → mCoherent r) ∧
+    (∀ fuel stk, cnf fuel stk a = .ok r → mCoherent r) ∧ (∀ fuel stk, dnf fuel stk a = .ok r → mCoherent r) := by
+  rw [mCoherent_iff_good] at ha hb
+  simp only [mCoherent_iff_good]
+  exact ⟨fun h => (gAt MC defaultFuel).inter [] a b r ha hb h, fun h => (gAt MC defaultFuel).uni [] a b r ha hb h,
+    fun fuel stk h => (gAt MC fuel).cnf stk a r ha h, fun fuel stk h => (gAt MC fuel).dnf stk a r ha h⟩
+
+/-- **`parse_marker` returns a coherent marker** (both the guarded public function and the raw one) -/
+theorem marker_coherent_parse (H : marker_coherent_leaf_obligations) (text : String) (m : M) :
+    (parseMarker text = .ok m → mCoherent m) ∧ (parseMarkerTop text = .ok m → mCoherent m) := by
+  simp only [mCoherent_iff_good]
+  exact ⟨fun h => parseMarker_good H.1 H.2 text m h,
+    fun h => parseMarker_good H.1 H.2 text m ((parseMarkerTop_ok_iff text m).1 h)⟩
+
+/-- **coherence is preserved by invert, only, exclude, without_extras, reduce_by_python_constraint** -/
+theorem marker_coherent_ops (H : marker_coherent_leaf_obligations) (a r : M) (ha : mCoherent a) :
+    (a.invert = .ok r → mCoherent r) ∧ (∀ names, a.only names = .ok r → mCoherent r) ∧
+    (∀ name, a.exclude name = .ok r → mCoherent r) ∧ (a.withoutExtras = .ok r → mCoherent r) ∧
+    (∀ pc, a.reduce pc = .ok r → mCoherent r) := by
+  rw [mCoherent_iff_good] at ha
+  simp only [mCoherent_iff_good]
+  exact ⟨fun h => invert_good H.1 a r ha h, fun names h => only_good H.2 names a r ha h,
+    fun name h => exclude_good H.2 name a r ha h, fun h => exclude_good H.2 "extra" a r ha h,
+    fun pc h => reduce_good H.1 H.2 pc a r ha h⟩
+
+/-- what the front end builds before simplification (`_compact_markers`) is coherent for every parsed text whose items are -/
+theorem marker_coherent_compact (t : String) (syn : Syn) (m : M) (hp : parseText t = .ok syn)
+    (hc : syn.coh = true) (h : compactRaw syn = .ok m) : mCoherent m := by
+  rw [mCoherent_iff_good]
+  exact good_of_Coherent m (compactRaw_sem ⟨[], none⟩ syn m h hc).1
+
+/-- the remaining obligation, visible: the two leaf-level facts (see the section comment) -/
+def marker_coherent_full_statement : Prop := marker_coherent_leaf_obligations
 
 /-- without the invariant the statement is false: `__eq__` does not look at the constraint -/
 theorem counterexample_marker_incoherent :
